@@ -34,8 +34,17 @@ ALL = net_ref.all_addresses()
 
 
 def bytesets(seed, n):
-    out = [(0xCC, bytes([0xC3, 0x3C, 0x33, 0xCE, 0x3E, 0xE3]))]
+    dflt = bytes([0xC3, 0x3C, 0x33, 0xCE, 0x3E, 0xE3])
     rng = random.Random(seed * 77 + 5)
+    out = [(0xCC, dflt),
+           # partial customisations (the nodes are constructed with the default bytes, then the new
+           # bytes are assigned and node_address is re-assigned): the prefix only; two suffix bytes
+           # only; extreme byte values 0x00 / 0xFF inside the suffix
+           (rng.choice([0xDB, 0x5A, 0x01]), dflt),
+           (0xCC, bytes([0xC3, 0x3C, 0x71, 0xCE, 0x9A, 0xE3])),
+           (rng.randrange(1, 255), bytes([0x5C, 0xFF, 0x33, 0x00, 0x3E, 0xA1]) if seed % 2 == 0
+            else bytes([0x5C, 0x00, 0x33, 0x7E, 0xFF, 0xA1]))]
+    n += 3
     while len(out) < n + 1:
         vals = rng.sample(range(1, 255), 7)
         out.append((vals[0], bytes(vals[1:])))
